@@ -92,7 +92,12 @@ func Gen(t *rapid.T, cfg Config) World {
 		for j := 0; j < nv; j++ {
 			v := rapid.SampledFrom(offered).Draw(t, "offered")
 			if cfg.Twins && rapid.IntRange(0, 5).Draw(t, "twin?") == 0 {
-				v += rapid.SampledFrom([]string{"+a", "+b"}).Draw(t, "meta")
+				m := rapid.SampledFrom([]string{"a", "b"}).Draw(t, "meta")
+				if strings.Contains(v, "+") {
+					v += "." + m // already has build metadata: one more identifier
+				} else {
+					v += "+" + m
+				}
 			}
 			if seen[v] {
 				continue
